@@ -147,10 +147,10 @@ pub fn glue(_thorough: bool) -> Report {
         let _ = std::fs::remove_file(&log);
         let mut bc = BuildConfig::new("heroku/builder:24", &fixture);
         bc.buildpacks(bps.iter().map(|b| BuildpackReference::Other(b.to_string())).collect::<Vec<_>>());
-        bc.env("BUILD_ONLY", "s3cr=t").env("BP_LOG_LEVEL", "debug");
+        bc.env("BUILD_ONLY", "s3cr=t").envs([("BP_LOG_LEVEL", "debug")]);   // env() followed by envs(): both kinds of call ADD
         if preprocess { bc.app_dir_preprocessor(|p| std::fs::write(p.join("extra"), "x").unwrap()); }
         let mut cc = ContainerConfig::new();
-        if variant == 0 { cc.entrypoint("web").env("PORT", "8080").env("GREETING", "a=b c").expose_port(8080).bind_mount("/host/test cache", "/workspace/cache"); } else { cc.command(["bash", "-c", "echo hi"]).env("ONLY_IN_CONTAINER", "").expose_port(80).expose_port(443).bind_mount("/host/a", "/data").bind_mount("/host/b", "/etc/b"); }
+        if variant == 0 { cc.entrypoint("web").env("PORT", "8080").envs([("GREETING", "a=b c")]).expose_port(8080).bind_mount("/host/test cache", "/workspace/cache"); } else { cc.command(["bash", "-c", "echo hi"]).env("ONLY_IN_CONTAINER", "").expose_port(80).expose_port(443).bind_mount("/host/a", "/data").bind_mount("/host/b", "/etc/b"); }
         let _ = std::fs::remove_file(root.join("cmd.log.path"));
         let input = format!("preprocessor {preprocess}, buildpacks {bps:?}, container variant {variant}");
         let res = std::panic::catch_unwind(std::panic::AssertUnwindSafe(|| { TestRunner::default().build(&bc, |ctx| { ctx.start_container(&cc, |_c| {}); }); }));
